@@ -13,7 +13,7 @@ def decoder_options(rng):
 
 
 def run_decoder(chunks, max_payload, return_bytes=True, return_offset=True, use_callback=False, as_ints=False, typed_callbacks=None,
-                form='bytes', opts=None, late=None, check_arg=False):
+                form='bytes', opts=None, late=None, check_arg=False, own=False):
     """Returns (per-call canonical strings, flat list of result dicts, error or None).
     as_ints: single-byte chunks are passed as `int` (the documented alternative input form).
     typed_callbacks: dict type -> list, filled by callbacks registered for that specific message type.
@@ -27,7 +27,12 @@ def run_decoder(chunks, max_payload, return_bytes=True, return_offset=True, use_
     late: callbacks registered while the decoder is in use: a list of dicts {'at': ['call', i] (before the i-th on_data call;
     i == len(chunks): after the last) or ['msg', n] (from inside a callback, while the n-th accepted message is delivered),
     'type': message type number or None}; each gets 'sink' (list of the argument tuples received) and 'n0' (number of messages
-    delivered before the registration)."""
+    delivered before the registration).
+    own: results are caller-owned VALUES.  Every returned header / payload / raw-bytes object is snapshotted when its call
+    returns (d['header_snap'], d['contents_snap'], d['raw'], d['offset']) and kept; all objects returned so far are read again
+    after every later call (payload objects: after every later call that returned something, the call after their own, and the
+    last) and must still show their snapshot ('ResultChanged: ...'); no mutable object may be handed out twice - for two
+    messages, in two roles, or be the argument object itself ('ResultAliased: ...')."""
     from fusion_engine_client.parsers.decoder import FusionEngineDecoder
     from fusion_engine_client.messages import MessageHeader
     import logging
@@ -47,6 +52,7 @@ def run_decoder(chunks, max_payload, return_bytes=True, return_offset=True, use_
     others = [FusionEngineDecoder(max_payload_len_bytes=m2, warn_on_error='none') for m2 in (1 << 24, 0, 8)] \
         if (opts or {}).get('second_decoder', True) else []
     seen_lists = []
+    seen_ids = set()
     cb = []
     if use_callback:
         dec.add_callback(None, lambda *a: cb.append(a))
@@ -76,6 +82,7 @@ def run_decoder(chunks, max_payload, return_bytes=True, return_offset=True, use_
                     register(L, n)
         dec.add_callback(None, counter)
     kept = []           # (object the caller still holds, what it held when it was passed)
+    held_results = []   # own: [message number, call index, header object, payload object, raw object or None, snapshots...]
     fixed = bytearray(max([len(c) for c in chunks] + [1]) + 3) if form == 'mv_recv_into' else None
     for ci, ch in enumerate(chunks):
         for L in late or []:
@@ -107,6 +114,7 @@ def run_decoder(chunks, max_payload, return_bytes=True, return_offset=True, use_
                 arg = memoryview(fixed)[:len(ch)]
             else:
                 arg = bytes(ch)
+            arg_obj = arg
             res = dec.on_data(arg)
             if check_arg and not (as_ints and len(ch) == 1):
                 now = bytes(fixed[:len(ch)]) if form == 'mv_recv_into' else bytes(arg)
@@ -118,10 +126,11 @@ def run_decoder(chunks, max_payload, return_bytes=True, return_offset=True, use_
                 arg.release()               # the caller's view ends with the call; the decoder must have copied what it keeps
             for k, o in enumerate(others):
                 o.on_data(b'\x2e\x31\x00' if k % 2 else b'\x07')
-            if any(res is l for l in seen_lists) or any(r == ('caller-owned',) for r in res):
+            if id(res) in seen_ids or any(r == ('caller-owned',) for r in res):     # (seen_lists keeps them alive: ids are unique)
                 return calls, flat, 'SharedResult: on_data returned the very list object an earlier call returned (a caller ' \
                                     'extending its result in place changes what later calls return)', cb
             seen_lists.append(res)
+            seen_ids.add(id(res))
             if form == 'ba_wipe' and isinstance(arg, bytearray):
                 for i in range(len(arg)):
                     arg[i] = 0x2e
@@ -141,6 +150,15 @@ def run_decoder(chunks, max_payload, return_bytes=True, return_offset=True, use_
             flat.append(d)
             if return_bytes and return_offset:
                 pairs.append('%d:%d' % (d['offset'], len(d['raw'])))
+            d['header_snap'] = header_fields(hdr)
+            if own:
+                d['contents_snap'] = repr(canon.canon(contents))
+                held_results.append((len(flat) - 1, ci, hdr, contents, r[2] if return_bytes else None, d['header_snap'],
+                                     d['contents_snap'], d.get('raw')))
+        if own:
+            err = _ownership(held_results, ci, len(res), arg_obj, ci == len(chunks) - 1)
+            if err:
+                return calls, flat, err, cb
         if isinstance(res, list):
             res.append(('caller-owned',))        # the caller owns the returned list and may extend it
         calls.append('%s|%d|%d|%d' % (','.join(pairs), len(dec._buffer), 0 if dec._header is None else 1,
@@ -158,6 +176,51 @@ def run_decoder(chunks, max_payload, return_bytes=True, return_offset=True, use_
             else:
                 L['sink'], L['n0'] = None, None  # fewer messages than that were delivered: never registered
     return calls, flat, None, cb
+
+
+_IMMUTABLE = (bytes, str, int, float, bool, tuple, frozenset, type(None))
+
+
+def _ownership(held, ci, n_new, arg, last):
+    """own=True of run_decoder: aliasing between the objects handed out, and re-reading of everything handed out so far."""
+    seen = {}
+    for k, (num, call, hdr, contents, raw, hs, cs, rs) in enumerate(held):
+        new = k >= len(held) - n_new
+        for role, obj in (('header', hdr), ('payload', contents), ('raw bytes', raw)):
+            if obj is None or isinstance(obj, _IMMUTABLE):
+                continue
+            if new:
+                if obj is arg:
+                    return 'ResultAliased: the %s of message %d (returned by call %d) is the very object the caller passed to ' \
+                           'on_data()' % (role, num, call)
+                if id(obj) in seen:
+                    n2, c2, r2 = seen[id(obj)]
+                    return 'ResultAliased: the %s of message %d (returned by call %d) is the same %s object as the %s of message ' \
+                           '%d (returned by call %d): one object handed out twice' % (role, num, call, type(obj).__name__, r2, n2, c2)
+            seen[id(obj)] = (num, call, role)
+        when = 'when call %d returned' % call if new else 'after call %d' % ci
+        try:
+            now = header_fields(hdr)
+        except Exception as e:
+            now = '%s: %s' % (type(e).__name__, e)
+        if now != hs:
+            return 'ResultChanged: header of message %d (returned by call %d) read %s %s: (reserved, crc, protocol, version, ' \
+                   'type, sequence, size, source) = %s, but %s right after its own call%s' % (
+                       num, call, 'again' if not new else 'a second time', when, now, hs, '' if not new else ' (snapshot)')
+        if raw is not None and not isinstance(raw, bytes):
+            if len(raw) != len(rs) or raw != rs:
+                return 'ResultChanged: raw bytes of message %d (returned by call %d, a %s) read again %s: %d bytes %s..., but %d ' \
+                       'bytes %s... when its call returned' % (num, call, type(raw).__name__, when, len(raw), bytes(raw[:24]).hex(),
+                                                               len(rs), rs[:24].hex())
+        if not new and (n_new or last or call == ci - 1) and not isinstance(contents, _IMMUTABLE):
+            try:
+                now = repr(canon.canon(contents))
+            except Exception as e:
+                now = '%s: %s' % (type(e).__name__, e)
+            if now != cs:
+                return 'ResultChanged: payload object of message %d (returned by call %d) read again %s differs from what it ' \
+                       'held when its call returned' % (num, call, when)
+    return None
 
 
 def header_fields(h):
